@@ -312,6 +312,9 @@ func runC11(c *Ctx) {
 	}
 
 	// ------------------------------------------------------------- D7 pointers a JSON decoder may reset
+	c.Rule("C11-D8", "the OPEN packet is the protocol's (F49): newHandshakePacket replaces a nil upgrades list before marshalling — \"upgrades\" is an array in Engine.IO v4, never null", 1)
+	handshakeUpgradesNeverNull(c, "C11-D8")
+
 	c.Rule("C11-D7", "a pointer handed to a JSON decoder BY ADDRESS (`json.Unmarshal(b, &p)` with p itself a pointer) can come back nil — the JSON literal `null` resets it without an error — so every dereference of p after the call "+
 		"lies under a nil test of p; in the Engine.IO layer and its transports these decoders read what the peer sent (handshake and OPEN payloads); every decoder call of these packages is an instance (today none receives a pointer by address)", 3)
 	nilAfterUnmarshal(c, "C11-D7", map[string]bool{"eio": true, "eioparser": true, "polling": true, "websocket": true, "webtransport": true, "transport": true})
